@@ -238,3 +238,16 @@ Fixpoint run (c : config) (f : flags) (s : state) (ops : list op) (i : N) : stat
 
 Definition tx_outcome (c : config) (f : flags) (ops : list op) : res :=
   match run c f state0 ops 0 with inl _ => ROk | inr (_, r) => r end.
+
+(* ---- how a TransactionLimitsError reaches the receipt (as written) ----
+   Normally: RuntimeError::SystemModuleError(SystemModuleError::TransactionLimitsError(e)).
+   When the error is raised by an IO access made while a blueprint payload is validated against its
+   schema (SystemServiceTypeInfoLookup reads the TypeInfo of an owned / referenced node, an IO access
+   counted by the LimitsModule), validate_blueprint_payload turns the validation error into text:
+   SystemError(TypeCheckError(BlueprintPayloadValidationError(.., msg))) with e printed inside msg.
+   Either way the transaction is failed, which is what the property asks. *)
+Inductive surfaced := SLimit (e : lerr) | SMaskedTypeCheck (e : lerr).
+Definition surface (during_payload_validation : bool) (e : lerr) : surfaced :=
+  if during_payload_validation then SMaskedTypeCheck e else SLimit e.
+Definition surfaced_err (x : surfaced) : lerr := match x with SLimit e | SMaskedTypeCheck e => e end.
+Definition receipt_failed (x : option surfaced) : bool := match x with Some _ => true | None => false end.
